@@ -6,7 +6,7 @@ class M1(Mode):
 
     def mode_start(self, **kwargs):
         self.add_mode_event_handler("m1_custom", self._custom)
-        self.delay.add(ms=5000, callback=self._late, name="m1_delay")
+        self.delay.add(ms=1000, callback=self._late, name="m1_delay")
         self.switch_handlers.append(
             self.machine.switch_controller.add_switch_handler("s1", self._switch, state=1, ms=0))
 
